@@ -629,7 +629,7 @@ fn c14_mult32_{suf}() {{
     kani::assume(i.is_some());
     let i = i.unwrap();
     let n: u32 = kani::any();
-    kani::assume((n as u64) < (1u64 << 53) / ({mult}));
+    kani::assume((n as u64) < (1u64 << 53) / ({mult}) && (n as u64) < {("(1u64 << 20)" if suf in ("mb", "gb", "tb") else "(1u64 << 32)")});
     let expected: u64 = (n as u64) * ({mult});
     let got = match rung_f64(i, n as f64) {{ Some(v) => Some(v), None => rung_u64(i, n as u64) }};
     kani::cover!(true);
